@@ -19,22 +19,22 @@ import (
 
 // Partial is the on-disk form written by one test process.
 type Partial struct {
-	Property    string           `json:"property"`
-	Cases       int64            `json:"cases"`       // property invocations that ran their oracle to completion
-	Evaluations int64            `json:"evaluations"` // oracle evaluations (>= cases when a case probes several instances)
-	NonTrivial  int64            `json:"nontrivial"`  // non-trivial evaluations (not de-duplicated)
-	Distinct    int64            `json:"distinct_nontrivial_local"`
-	Classes     map[string]int64 `json:"classes"`
-	Known       map[string]int64 `json:"known_finding_hits"`
-	KnownWhat   map[string]string `json:"known_finding_what"`
-	Samples     []any            `json:"samples"`
-	Rule        string           `json:"rule"`
-	Assumptions []string         `json:"assumptions"`
-	Extra       map[string]any   `json:"extra,omitempty"`
-	HashFile    string           `json:"hash_file"`
-	Failed      bool             `json:"failed"`
-	FailMsg     string           `json:"fail_msg,omitempty"`
-	Inconclusive string          `json:"inconclusive,omitempty"`
+	Property     string            `json:"property"`
+	Cases        int64             `json:"cases"`       // property invocations that ran their oracle to completion
+	Evaluations  int64             `json:"evaluations"` // oracle evaluations (>= cases when a case probes several instances)
+	NonTrivial   int64             `json:"nontrivial"`  // non-trivial evaluations (not de-duplicated)
+	Distinct     int64             `json:"distinct_nontrivial_local"`
+	Classes      map[string]int64  `json:"classes"`
+	Known        map[string]int64  `json:"known_finding_hits"`
+	KnownWhat    map[string]string `json:"known_finding_what"`
+	Samples      []any             `json:"samples"`
+	Rule         string            `json:"rule"`
+	Assumptions  []string          `json:"assumptions"`
+	Extra        map[string]any    `json:"extra,omitempty"`
+	HashFile     string            `json:"hash_file"`
+	Failed       bool              `json:"failed"`
+	FailMsg      string            `json:"fail_msg,omitempty"`
+	Inconclusive string            `json:"inconclusive,omitempty"`
 }
 
 // Recorder accumulates evidence for one property in one process.
